@@ -184,6 +184,15 @@ static Case gen_c18()
       q = 4000 / chunk;
     c.seti("plen", q * chunk - 1 - g::range(0, 16));
   }
+  // now and then one stream carries several hundred blocks (a counter or feedback register that wraps early
+  // repeats its keystream inside the stream)
+  if (g::coin(6))
+  {
+    long Tn = g::range(2, 4);
+    c.seti("T", Tn);
+    c.seti("chunk", 64);
+    c.seti("plen", 16 * (Tn * g::range(258, 300) + g::range(0, 8)) - 1 - g::range(0, 16));
+  }
   c.seti("cmode", g::coin(90) ? g::range(1, 5) : 0);
   c.seti("pstyle", g::coin(50) ? 1 : g::coin(50) ? 3 : 0); // equal chunks half of the time
   c.setb("seed2", g::coin(85) ? gen_seed() : c.getb("seed"));
@@ -212,6 +221,14 @@ static void fixed_c18(Ctx &ctx)
       c.seti("T", T);
       c.seti("chunk", chunk);
       eval_fixed(*p, ctx, c);
+      if (T == 2)
+      {
+        // 2 streams x 260 blocks: more than 256 blocks through one stream
+        c.seti("chunk", 64);
+        c.seti("plen", 16 * 520 - 5);
+        c.seti("pstyle", 0);
+        eval_fixed(*p, ctx, c);
+      }
     }
 }
 
